@@ -283,6 +283,9 @@ def run(tape, scenario):
 
     sched = None
     if multi:
+        # (lock waiters poll once per loop iteration while the holder may be stalled, and
+        # the harness' own barrier polls too: a generous budget, a real hang still ends)
+        env.loop_max_iterations = 600_000
         sched = env.use_scheduler(preempt_bound=tape.draw("sched/bound", 7),
                                   preempt_den=[3, 6, 12][tape.draw("sched/den", 3)])
         sched.stall_rate = [0, 30, 60][tape.draw("cfg/stall-rate", 3)]
@@ -457,7 +460,7 @@ def run(tape, scenario):
         tobj = []
         if pno != first_proc:
             while not attached[0]:
-                await asyncio.sleep(100e-6)
+                await asyncio.sleep(2e-3)
         for k, (st, srv) in enumerate(sterms):
             t = Terminal(ec)
             t.name = st.name
